@@ -229,3 +229,11 @@ fn encode_message_payload(subscription: &Arc<Subscription>, message: &Arc<TopicM
 
     serde_json::to_string(&payload).unwrap()
 }
+
+#[cfg(deltio_verif)]
+pub(crate) fn verif_encode_message_payload(
+    subscription: &Arc<Subscription>,
+    message: &Arc<TopicMessage>,
+) -> String {
+    encode_message_payload(subscription, message)
+}
